@@ -1,7 +1,7 @@
 #!/usr/bin/env python3
 """Store a confirmed seeded change under seeded/<id>/ : patch.diff, demo.py, notes.md (the sub-agent's own account) and
 meta.json (property, what the change needs in order to manifest, what was run to confirm it and with which result).
-usage: tools/keep_seed.py <Cxx> <agent dir with patch.diff/demo.py/notes.md> <confirm json> "<summary>" "<needs>"
+usage: tools/keep_seed.py <Cxx> <agent dir with patch.diff/demo.py/notes.md> <confirm json> "<summary>" "<needs>" [dir name]
 """
 import json
 import os
@@ -14,13 +14,14 @@ HERE = os.path.dirname(os.path.dirname(os.path.abspath(__file__)))
 
 def main():
     pid, src, cj, summary, needs = sys.argv[1:6]
+    name = sys.argv[6] if len(sys.argv) > 6 else pid  # directory name (second-round changes: C01-2, ...)
     conf = json.load(open(cj))
-    dst = os.path.join(HERE, "seeded", pid)
+    dst = os.path.join(HERE, "seeded", name)
     os.makedirs(dst, exist_ok=True)
     shutil.copy(os.path.join(src, "patch.diff"), os.path.join(dst, "patch.diff"))
     txt = open(os.path.join(src, "demo.py")).read()
     # the demonstration was written against the sub-agent's worktree; make it tree-agnostic (PYTHONPATH decides)
-    txt = re.sub(r"/tmp/wt/C\d+", "/repo", txt)
+    txt = re.sub(r"/tmp/wt2?/C\d+", "/repo", txt)
     open(os.path.join(dst, "demo.py"), "w").write(txt)
     if os.path.exists(os.path.join(src, "notes.md")):
         shutil.copy(os.path.join(src, "notes.md"), os.path.join(dst, "notes.md"))
@@ -41,7 +42,7 @@ def main():
             "demo_exit_without_change": conf.get("demo_without_change", {}).get("exit"),
         },
         "checks": {k: {"caught": v["caught"], "exit": v["exit"], "mechanisms": v["mechanisms"]} for k, v in conf.get("checks", {}).items()},
-        "run_against_repo": "git -C /repo apply /verif/seeded/%s/patch.diff && (cd /verif && ./check %s quick); git -C /repo checkout -- .   (tools/run_seed.sh does this and restores evidence/)" % (pid, pid),
+        "run_against_repo": "git -C /repo apply /verif/seeded/%s/patch.diff && (cd /verif && ./check %s quick); git -C /repo checkout -- .   (tools/run_seed.sh does this and restores evidence/)" % (name, pid),
     }
     json.dump(meta, open(os.path.join(dst, "meta.json"), "w"), indent=1)
     print("kept", dst, json.dumps(meta["confirmed"]), {k: v["caught"] for k, v in meta["checks"].items()})
